@@ -3,8 +3,11 @@
    Data-race freedom in the sense of the Go memory model is NOT stated here: no executable Gallina model
    exhibits it (DESIGN 3/C13, 7); the race-detector build of the real loops is evidence, not proof. *)
 From Coq Require Import String List Bool Arith.
+From Coq Require Import NArith.
 From Verif Require Import Model.StopProto Proofs.StopProtoProofs gen.BlockPoints Check.BlockPointsLemmas Check.StopCheck.
+From Verif Require Import Model.Conc Proofs.ConcProofs.
 Import ListNotations.
+Open Scope nat_scope.
 Open Scope string_scope.
 
 (* ---- part B: stop protocol -------------------------------------------------------------------------
@@ -87,6 +90,43 @@ Theorem C13_witness_per_kind_refuted :
 Proof. exact witnesses_hang. Qed.
 Print Assumptions C13_witness_per_kind_refuted.
 
+(* ---- part A: invariants under every interleaving ---------------------------------------------------------
+   Model/Conc.v: block producer, header submitter, data submitter and DA-includer of an aggregator as programs
+   over atomic actions (one durable write / one read of shared state / one call to a double), started from a
+   fresh node (initial height 1).  A schedule is a list of (activity, answer of the double if the action is a
+   call).  NOT in the model: reaper, retriever, P2P pollers, sync loop (so C02 is not covered), datastore errors.
+
+   For EVERY schedule, after EVERY action (every prefix): the joint invariant J holds - G: the committed chain
+   1..height is present, final and hash-linked, an early-saved block above it already names the top block
+   (C01); both submission watermarks are at most the height, the durable ones at most the volatile ones, and
+   everything at or below a watermark that its submitter sends is on the DA layer (C06); every DA-included mark
+   is backed by the DA layer, the DA-included height is at most the height, every block at or below it is
+   entirely on the DA layer, and DA-included <= persisted <= finalized <= DA-included + 1 (C07) - together with
+   what each activity knows at each program point (Pcl / Scl / Icl: e.g. the state record is one above the store
+   height exactly between the producer's `put /s` and `put /t`). *)
+Theorem C13_interleaving_full : forall (sched : list (act * env)) (n : nat), J (run init (firstn n sched)).
+Proof. exact interleaving_every_prefix. Qed.
+Print Assumptions C13_interleaving_full.
+
+(* from ANY state satisfying the invariant (not only the fresh node), every schedule keeps it *)
+Theorem C13_interleaving_from_full : forall (st : state) (sched : list (act * env)), J st -> J (run st sched).
+Proof. exact interleaving_from. Qed.
+Print Assumptions C13_interleaving_from_full.
+
+(* across every single action of every schedule: the height, both watermarks and the DA-included height never
+   go back, committed blocks are never rewritten, the DA layer never loses a blob *)
+Theorem C13_monotone_full : forall (sched : list (act * env)) (ae : act * env),
+  mono (sh (run init sched)) (sh (run init (sched ++ [ae]))).
+Proof. exact monotone. Qed.
+Print Assumptions C13_monotone_full.
+
+(* the boolean check that the harness evaluates on the real halted aggregator holds of every reachable model
+   state in which the producer is between two steps *)
+Theorem C13_observable_check_full : forall sched : list (act * env),
+  pp (run init sched) = P0 -> gcheck (sh (run init sched)) = [].
+Proof. exact gcheck_reachable. Qed.
+Print Assumptions C13_observable_check_full.
+
 (* ---- non-vacuity ------------------------------------------------------------------------------------ *)
 (* the guard holds of a real loop with several blocking operations (HeaderSubmissionLoop reaches the select
    of the loop and the back-off select of submitToDA), and an environment with K = 2 meets the bound *)
@@ -106,3 +146,21 @@ Example ex_runs_two_more_then_returns :
   | [] => False
   end.
 Proof. vm_compute. split; [discriminate | reflexivity]. Qed.
+
+(* part A: a schedule in which the four activities interleave inside each other's steps: block 1 (with
+   transactions) is produced while the header submitter already runs, submitted (header and data), marked,
+   and DA-included while the producer is in the middle of block 2 *)
+Definition ok (n : N) : env := {| e_ok := true; e_txs := true; e_n := n |}.
+Definition ex_sched : list (act * env) :=
+  [ (AProd, ok 0); (AProd, ok 0); (ASub Hdr, ok 0); (AProd, ok 0); (AProd, ok 0); (AProd, ok 0); (AProd, ok 7);
+    (AIncl, ok 0); (AProd, ok 0); (AProd, ok 0); (AProd, ok 0); (AIncl, ok 0); (AProd, ok 0); (AProd, ok 0);
+    (* height is 1 now *)
+    (ASub Hdr, ok 0); (AProd, ok 0); (ASub Dat, ok 0); (ASub Hdr, ok 0); (AProd, ok 0); (ASub Dat, ok 0);
+    (ASub Hdr, ok 1); (AProd, ok 0); (ASub Dat, ok 1); (AProd, ok 0); (ASub Hdr, ok 0); (ASub Dat, ok 0); (AProd, ok 0);
+    (AIncl, ok 0); (ASub Hdr, ok 0); (AIncl, ok 0); (ASub Dat, ok 0); (AProd, ok 9); (AIncl, ok 0); (AIncl, ok 0);
+    (ASub Hdr, ok 0); (AIncl, ok 0); (AIncl, ok 0); (ASub Dat, ok 0); (AIncl, ok 0); (AIncl, ok 0); (AIncl, ok 0) ].
+Example ex_sched_reaches :
+  let s := sh (run init ex_sched) in
+  (ht s, wmv s Hdr, wmv s Dat, wmp s Hdr, di s, pdi s, fin s) = (1, 1, 1, 1, 1, 1, 1)%N
+  /\ blk s 2 <> None /\ pp (run init ex_sched) <> P0.
+Proof. vm_compute. repeat split; discriminate. Qed.
